@@ -36,9 +36,13 @@ def priv_step(E, R, form, testnet, prop):
     child = E.run(node.ckd, i)
     ref = cm.ckd_priv(E, p["k"], p["c"], i)
     if ref[0] == "invalid":
-        if prop == "C18":
+        if prop in ("C18", "C01"):
             E.check(isinstance(child, Raised), "invalid private child (%s) raises" % ref[1])
             E.check(len(node.children) == 0, "no child appended for an invalid derivation")
+            # asking again does not change the answer (a child registered before the validity check would be
+            # handed out by a lookup of already-derived children)
+            again = E.run(node.ckd, i)
+            E.check(isinstance(again, Raised), "invalid private child (%s) raises again on a second request" % ref[1])
         return "invalid:" + ref[1]
     ki, IR = ref
     if isinstance(child, Raised):
@@ -89,9 +93,11 @@ def pub_step(E, R, testnet, prop):
         return "hardened"
     ref = cm.ckd_pub_dlog(E, p["k"], p["c"], i)
     if ref[0] == "invalid":
-        if prop == "C18":
+        if prop in ("C18", "C02"):
             E.check(isinstance(child, Raised), "invalid public child (%s) raises" % ref[1])
             E.check(len(node.children) == 0, "no child appended for an invalid derivation")
+            again = E.run(node.ckd, i)
+            E.check(isinstance(again, Raised), "invalid public child (%s) raises again on a second request" % ref[1])
         return "invalid:" + ref[1]
     ki, IR = ref
     IL_zero = (ki == p["k"])          # IL = 0: ecdsa fallback cannot form point(0); see DESIGN C02 note
